@@ -51,7 +51,7 @@ func main() {
 
 	r := hlib.NewRand(cfg.Seed)
 	switch part {
-	case "", "codecs", "bin", "url", "txt", "radix", "hash", "json", "xml":
+	case "", "codecs", "bin", "url", "txt", "radix", "hash", "json", "xml", "csv":
 		ops := genCodecOps(cfg, part, r, o)
 		ev.evalOps(o, ops)
 	case "laws":
